@@ -1289,6 +1289,8 @@ _W = 'chainables/courier_worker.py'
 _O = 'chainables/orchestrate.py'
 _U = 'utils/courier_utils.py'
 VARIANTS = [
+    OK('release-owner-test-through-a-local', 'chainables/courier_worker.py',
+       "      if worker_pool is not None and self._worker_pool is not worker_pool:\n        # Free, or acquired by another pool since the caller looked.\n        return", "      owner = self._worker_pool\n      if worker_pool is not None and owner is not worker_pool:\n        return"),
     OK('unused-workers-through-a-local', 'chainables/orchestrate.py',
        "        worker_pool.release_all(unused_workers)", "        spare = unused_workers\n        worker_pool.release_all(spare)"),
     OK('stage-merge-through-a-local', 'chainables/orchestrate.py',
